@@ -116,7 +116,7 @@ def c06_1(rep, ix, G):
         rep.check(not early, R, ix.site(ex, body[i]), "the reset of self.%s precedes every return, raise, evaluation and the replay loop (an aborted or empty loop cannot leave the flag set)" % flag,
                   "preceded by `%s`" % (" ".join(u(early[0]).split())[:70] if early else ""), key="reset first")
     other = [n for q, f in ix.funcs.items() for n in ast.walk(f.node) if isinstance(n, (ast.Assign, ast.AugAssign)) and any(
-        isinstance(t, ast.Attribute) and t.attr == flag for t in (n.targets if isinstance(n, ast.Assign) else [n.target])) and q not in (ENTER, EXIT, "listener.BlackbirdListener.__init__")]
+        isinstance(t, ast.Attribute) and t.attr == flag for t in (n.targets if isinstance(n, ast.Assign) else [n.target])) and q not in (ENTER, EXIT, "listener.BlackbirdListener.__init__") and q not in getattr(ix, "absorbed", ())]
     rep.check(not other, R, "listener", "self.%s is written only by __init__, enterForloop and exitForloop" % flag, key="flag writers")
     init = ix.func("listener.BlackbirdListener.__init__")
     ini = [s for s in init.node.body if isinstance(s, ast.Assign) and u(s.targets[0]) == "self." + flag]
@@ -234,10 +234,71 @@ def c06_3(rep, ix, G):
     # grammar facts
     rv = [r.name for r in refs(G.R["rangeval"].body)]
     rep.check(rv == ["INT", "COLON", "INT", "COLON", "INT"], R, "blackbird.g4 rangeval", "rangeval is INT ':' INT (':' INT)?", "got %s" % rv)
+    verdict = range_models(fn)
+    if verdict is not None:
+        ok_m, detail_m, site_m, var_m = verdict
+        rep.check(ok_m, R, ix.site(ex, site_m), "for each model header (0:3, 3:0, 2:2, 1:7:2, 4:4:3) the loop values are range(a, b[, c]) and nothing is refused", detail_m, key="range")
     rng = [c for c in walk_shallow(fn) if isinstance(c, ast.Call) and u(c.func) == "range"]
-    if len(rng) != 1:
+    if verdict is not None:
+        st = site_m
+    elif len(rng) != 1:
         raise Inconclusive("exitForloop: expected one range(...) construction, found %d" % len(rng))
-    c = rng[0]
+    if verdict is None:
+        st = range_idioms(rep, ix, ex, fn, rng[0], R)
+    return value_list(rep, ix, ex, fn, G, R, st, rng[0] if len(rng) == 1 else None, var_m if verdict is not None else None)
+
+
+RANGE_MODELS = (("0", "3"), ("3", "0"), ("2", "2"), ("1", "7", "2"), ("4", "4", "3"))
+
+
+def range_models(fn):
+    """interpret the range branch of exitForloop on model headers -> (ok, detail, site) or None when the branch is outside the interpreter"""
+    from ..py.guards import run_block, MNode, ModelError
+    branch = None
+    for n in walk_shallow(fn):
+        if isinstance(n, ast.If) and " ".join(u(n.test).split()) in ("ctx.rangeval()", "ctx.rangeval() is not None"):
+            branch = n
+            break
+    if branch is None:
+        return None
+    names = {t.id for x in branch.body for y in ast.walk(x) if isinstance(y, ast.Assign) for t in y.targets if isinstance(t, ast.Name)}
+    for m in RANGE_MODELS:
+        kids = []
+        for i, t in enumerate(m):
+            if i:
+                kids.append(MNode(":", kind="COLON"))
+            kids.append(MNode(t, kind="INT"))
+        node = MNode(":".join(m), kids)
+
+        def atom(e, node=node):
+            if isinstance(e, ast.Call) and " ".join(u(e).split()) == "ctx.rangeval()":
+                return node
+            return AEval.NO
+        env = {}
+        want = tuple(range(*[int(t) for t in m]))
+        try:
+            r = run_block(branch.body, atom, env)
+        except ModelError as exc:
+            return (False, "header %s: raises %s" % (":".join(m), exc), branch, None)
+        except Inconclusive:
+            return None
+        if r[0] == "raise":
+            return (False, "header %s (%d iterations) is refused with %s" % (":".join(m), len(want), "/".join(sorted(r[1]))), branch, None)
+        if r[0] != "fall":
+            return None
+        got = [k for k, v in env.items() if isinstance(v, tuple) and v == want and (want or k == "for_var")]
+        if "for_var" in env:
+            if env["for_var"] != want:
+                return (False, "header %s yields %s, expected %s" % (":".join(m), list(env["for_var"])[:8] if isinstance(env["for_var"], tuple) else env["for_var"], list(want)), branch, None)
+            var = "for_var"
+        elif len(got) != 1:
+            return None
+        else:
+            var = got[0]
+    return (True, "", branch, var)
+
+
+def range_idioms(rep, ix, ex, fn, c, R):
     ok = False
     why = ""
     from .c07 import resolve
@@ -306,7 +367,10 @@ def c06_3(rep, ix, G):
         rep.bad(R, ix.site(ex, c), "range bounds are the INT tokens of the header, unmodified", detail, key="range")
     else:
         rep.check(ok, R, ix.site(ex, c), "range(*[int(text) for each INT child of rangeval, in order])", why, key="range")
-    st = stmt_of(fn, c)
+    return stmt_of(fn, c)
+
+
+def value_list(rep, ix, ex, fn, G, R, st, c, range_var):
     # value list
     vloops = [l for l in walk_shallow(fn) if isinstance(l, ast.For) and u(l.iter) in ("ctx.vallist().getChildren()", "ctx.vallist().val()")]
     if len(vloops) != 1:
@@ -342,7 +406,7 @@ def c06_3(rep, ix, G):
     rep.check(any("rangeval" in t for t in tests) and (any("vallist" in t for t in tests) or True), R, ix.site(ex), "the header is dispatched on ctx.rangeval() / ctx.vallist()", key="dispatch")
     # one collection feeds the outer loop
     outer = [l for l in walk_shallow(fn) if isinstance(l, ast.For) and replay_loops(l) and l not in replay_loops(fn)[-1:]]
-    names = recv | {u(t) for n in walk_shallow(fn) if isinstance(n, ast.Assign) and n.value is c for t in n.targets}
+    names = recv | {u(t) for n in walk_shallow(fn) if isinstance(n, ast.Assign) and c is not None and n.value is c for t in n.targets} | ({range_var} if range_var else set())
     # `for_var = values`: the collected list handed on under the name the replay loop uses is still that one list
     handed = {}
     for n in walk_shallow(fn):
@@ -358,7 +422,7 @@ def c06_3(rep, ix, G):
             for a in walk_shallow(fn):
                 if isinstance(a, ast.Assign) and any(isinstance(t, ast.Name) and t.id == src for t in a.targets) and pos(a) < pos(l):
                     v = a.value
-                    okv = (isinstance(v, ast.List) and not v.elts) or v is c or (isinstance(v, ast.Call) and u(v.func) == "range") or (isinstance(v, ast.Name) and handed.get(v.id) == src)
+                    okv = (isinstance(v, ast.List) and not v.elts) or v is c or (range_var == src and any(a is x for x in ast.walk(st))) or (isinstance(v, ast.Call) and u(v.func) == "range") or (isinstance(v, ast.Name) and handed.get(v.id) == src)
                     rep.check(okv, R, ix.site(ex, a), "`%s`: the header values are replayed as collected (a Python list / range; no conversion that could coerce or reorder them)" % " ".join(u(a).split())[:60],
                               "the values are converted before the per-value type check (e.g. np.array coerces a mixed list to one dtype)", key="outer convert|" + " ".join(u(a).split())[:60])
 
